@@ -304,7 +304,18 @@ def dispatch_shape(pf):
     if ("return Proxy_Function_Base::compare_type_to_param(ti, bv, t_conversions) || (bv.get_type_info().is_arithmetic() && ti.is_arithmetic());" not in tm
             or "if (t_func->get_arity() == -1) { return false; }" not in tm):
         raise Shape("types_match_except_for_arithmetic changed")
-    return arity_check, ctp, retry, retry2
+    # Attribute_Access::do_call: the object pointer obtained with boxed_cast<[const] Class *> is null-checked or not
+    n = norm(pf)
+    aa = ("Boxed_Value do_call(const Function_Params &params, const Type_Conversions_State &t_conversions) const override { const Boxed_Value &bv = params[0]; "
+          "if (bv.is_const()) { const Class *o = boxed_cast<const Class *>(bv, &t_conversions); return do_call_impl<T>(%s); } else { "
+          "Class *o = boxed_cast<Class *>(bv, &t_conversions); return do_call_impl<T>(%s); } }")
+    if aa % ("chaiscript::detail::throw_if_null(o)", "chaiscript::detail::throw_if_null(o)") in n:
+        attr_nullcheck = True
+    elif aa % ("o", "o") in n:
+        attr_nullcheck = False
+    else:
+        raise Shape("Attribute_Access::do_call changed")
+    return arity_check, ctp, retry, retry2, attr_nullcheck
 
 
 def call_func_shape(pd):
@@ -421,7 +432,7 @@ def translate(repo):
     conds, c1, c2, c3 = boxed_cast_flow(rd("dispatchkit/boxed_cast.hpp"))
     null_when_const = data_ptr_shape(rd("dispatchkit/boxed_value.hpp"))
     any_shape(rd("dispatchkit/any.hpp"))
-    arity_check, ctp, retry, retry2 = dispatch_shape(rd("dispatchkit/proxy_functions.hpp"))
+    arity_check, ctp, retry, retry2, attr_nullcheck = dispatch_shape(rd("dispatchkit/proxy_functions.hpp"))
     call_func_shape(rd("dispatchkit/proxy_functions_detail.hpp"))
     registration_shape(rd("dispatchkit/dispatchkit.hpp"))
     special_helpers(rd("dispatchkit/boxed_number.hpp"), rd("dispatchkit/function_call.hpp"))
@@ -442,9 +453,10 @@ def translate(repo):
           "(* compare_type_to_param: the disjuncts *)", "Definition ctp_disjuncts : list ctp_cond := [%s]." % "; ".join(ctp),
           "(* exception classes after which dispatch() tries the next overload / dispatch_with_conversions() reports dispatch_error *)",
           "Definition dispatch_retry : list retry_class := [%s]." % "; ".join(retry),
-          "Definition dwc_retry : list retry_class := [%s]." % "; ".join(retry2), "",
+          "Definition dwc_retry : list retry_class := [%s]." % "; ".join(retry2),
+          "(* Attribute_Access::do_call null-checks the object pointer *)", "Definition attr_nullcheck : bool := %s." % coqbool(attr_nullcheck), "",
           "Definition gen_rules : rules := mkrules verify_table cast_table data_ptr_null_when_const bc_direct_when bc_direct_catch bc_up_catch bc_down_catch",
-          "  arity_check_present ctp_disjuncts dispatch_retry dwc_retry.", ""]
+          "  arity_check_present ctp_disjuncts dispatch_retry dwc_retry attr_nullcheck.", ""]
     return "\n".join(L)
 
 
